@@ -17,7 +17,7 @@ RULE = ("reader: the full matrix dtype(10) x byte order(<,>,| for 1-byte types) 
         "astype(float64); Fortran-ordered and unsupported-dtype files (complex, bool, f2, unicode, timedelta) must be "
         "rejected by both. writer: for a shape of EVERY header length modulo 64 (1-27 axes) numpy.load must accept the "
         "file written by write_npy and return the same shape and bit-identical values; the model's structural theorem covers "
-        "all shapes. non-trivial = file with a non-f8 dtype or a non-default header spelling; headers aligned to 16 bytes (numpy <= 1.13) and not padded at all; data whose first bytes are spaces / line feeds")
+        "all shapes. non-trivial = file with a non-f8 dtype or a non-default header spelling; headers aligned to 16 bytes (numpy <= 1.13) and not padded at all; data whose first bytes are spaces / line feeds; data whose last byte is an ASCII whitespace code")
 
 
 def check(rep, tier, seed):
@@ -73,8 +73,33 @@ def check(rep, tier, seed):
                          stdin_hex=open(m["path"], "rb").read().hex()[:4000], observed=g[:300], expected=want[:300],
                          detail="%s disagrees with numpy's astype(float64) on a file written by numpy" % who,
                          failing_input=(who == "implementation"))
-    # reader: axes longer than 65535 entries (shape entries are 64-bit numbers), hand-built as numpy lays files out
+    # the same files through the BINARY (the reader of view / fold / stat in front of the npy reader: input handling, format
+    # detection): `sfs view -O npy` on stdin must give numpy's float64 values back, bit for bit
     import struct as _s2
+    from common import run_cli_many as _rcm
+    ok_metas = [m for m in metas if not m.get("reject")]
+    pick = ok_metas[::3] + ok_metas[2::3][:60 if tier == "quick" else 10**6] + rng.sample(ok_metas, min(len(ok_metas), 20 if tier == "quick" else 300))
+    pick = list({m["path"]: m for m in pick}.values())
+    bres = _rcm([(["view", "-O", "npy"], open(m["path"], "rb").read()) for m in pick])
+    for m, (rc, so, se) in zip(pick, bres):
+        label = "%s%s v%d %s %s" % (m["order"], m["dtype"], m["version"], m["variant"], m["shape"])
+        rep.count("numpy-matrix-through-view", label, True)
+        got = None
+        if rc == 0 and so[:6] == b"\x93NUMPY":
+            hl = _s2.unpack("<H", so[8:10])[0]
+            payload = so[10 + hl:]
+            if len(payload) % 8 == 0:
+                got = "OK %s %s" % (fmt(m["shape"]), ",".join("b%016x" % _s2.unpack("<Q", payload[i:i + 8])[0] for i in range(0, len(payload), 8)))
+        want = "OK %s %s" % (fmt(m["shape"]), ",".join("b" + b for b in m["bits"]))
+        def same2(a, b):
+            xs, ys = a.split()[2].split(","), b.split()[2].split(",")
+            isnan = lambda v: (v >> 52) & 0x7ff == 0x7ff and v & 0xfffffffffffff
+            return a.split()[:2] == b.split()[:2] and len(xs) == len(ys) and all(x == y or (isnan(int(x[1:], 16)) and isnan(int(y[1:], 16))) for x, y in zip(xs, ys))
+        if got is None or not same2(got, want):
+            rep.fail(kind="numpy-oracle", cls="npy-reader:binary:" + m["dtype"], case=label, argv=["sfs", "view", "-O", "npy"], stdin_hex=open(m["path"], "rb").read().hex()[:4000],
+                     observed=(got or {"rc": rc, "stderr": se.decode(errors="replace")[-200:]}) if got is None else got[:300], expected=want[:300],
+                     detail="`sfs view -O npy` on a file written by numpy does not give numpy's astype(float64) values back")
+    # reader: axes longer than 65535 entries (shape entries are 64-bit numbers), hand-built as numpy lays files out
     def mk_npy(descr, shape, payload, major=1):
         dct = ("{'descr': '%s', 'fortran_order': False, 'shape': (%s), }" % (descr, "".join("%d, " % n for n in shape).rstrip() if len(shape) > 1 else "%d," % shape[0])).encode()
         lw = 2 if major == 1 else 4
